@@ -30,6 +30,8 @@ class Resource:
         self.idx = idx
         self.closed = 0
         self.close_stamp = None
+        self.oneway = False
+        self.track_stamp = None     # set for resources tracked from a one-way call thread
 
     def close(self):
         self.closed += 1
@@ -41,10 +43,12 @@ class Resource:
 
 @api.expose
 class Res:
-    def track(self, n, untrack):
+    def track(self, n, untrack, owner=None):
+        # 'owner' is the connection number the PEER knows it is calling over: resources are attributed to the connection
+        # that really asked for them, whatever the call context says
         run = _Run.cur
         c = cctx.client
-        conn = c.sock.conn
+        conn = c.sock.conn if owner is None else owner
         rs = run["resources"].setdefault(conn, [])
         new = []
         for _ in range(n):
@@ -56,6 +60,21 @@ class Res:
             cctx.untrack_resource(r)
             run["untracked"].add((conn, r.idx))
         return len(rs)
+
+    @api.oneway
+    def track_ow(self, n, owner, delay):
+        """tracks resources from the one-way call's own thread (the call context there is a copy made for that call)"""
+        run = _Run.cur
+        if delay:
+            run["sched"].sleep(delay)
+        rs = run["resources"].setdefault(owner, [])
+        for _ in range(n):
+            r = Resource(owner, len(rs))
+            r.oneway = True
+            rs.append(r)
+            cctx.track_resource(r)
+            r.track_stamp = run["sched"].stamp()
+        run["ow_tracked"] += n
 
     def echo(self, tok):
         return tok
@@ -114,12 +133,16 @@ class ConnWorld(World):
     STUB = ["sockets/selector (in-memory)", "threads (baton scheduler)", "time (virtual clock)", "raw protocol-speaking peers"]
     PROBES = ["release", "cut_header", "cut_annotations", "cut_payload", "rst", "malformed", "timeout_partial", "timeout_idle", "security",
               "hook_raises", "still_open_ok", "resources_closed", "resources_untracked", "session_instance", "multiplex", "thread",
-              "concurrent_endings", "handshake_failed_conn", "oneway_then_close", "stream_open_at_end", "ctor_tracked_resource"]
+              "concurrent_endings", "handshake_failed_conn", "oneway_then_close", "stream_open_at_end", "ctor_tracked_resource",
+              "oneway_tracked_resource", "oneway_tracked_after_end"]
     RULE = ("plan = (server type, COMMTIMEOUT, 2-4 connections each with handshake, 0-2 track calls (n resources, k untracked), optional "
             "session-instance call, an ending kind with byte offset, start delay; optional raising user hook / raising resource close); "
             "distinct = distinct interleaving digest; non-trivial = at least one connection ended abnormally while another was open")
     ASSUMPTIONS = ["for connections whose handshake failed the disconnect hook is required at most once",
-                   "resources are tracked from normal calls only (not from one-way threads)",
+                   "resources are attributed to the connection the peer called over (it passes its own connection number), not to "
+                   "what the call context says; 30% of the connections also track resources from one-way call threads (optionally "
+                   "delayed): such a resource must be closed exactly once with its connection if it was tracked before the "
+                   "connection's disconnect hook ran, and nothing is demanded of it if the one-way thread tracked it later",
                    "the harness keeps strong references to resources (the daemon tracks them weakly)",
                    "with a server COMMTIMEOUT an idle connection is dropped by design, so 'still open' connections keep talking"]
     QUICK_RUNS = 10000
@@ -137,7 +160,10 @@ class ConnWorld(World):
             tracks = [{"n": rng.randint(1, 3), "untrack": rng.randint(0, 2)} for _ in range(rng.randint(0, 2))]
             for t in tracks:
                 t["untrack"] = min(t["untrack"], t["n"])
-            conns.append({"start": rng.choice([0, 0, 0.01, 0.1]), "tracks": tracks, "session": rng.random() < 0.4,
+            ow = []
+            if rng.random() < 0.3:
+                ow = [{"n": rng.randint(1, 2), "delay": rng.choice([0, 0, 0.02, 0.2])} for _ in range(rng.randint(1, 2))]
+            conns.append({"start": rng.choice([0, 0, 0.01, 0.1]), "tracks": tracks, "ow_tracks": ow, "session": rng.random() < 0.4,
                           "streams": rng.choice([0, 0, 1, 2]),
                           "end": end, "frac": round(rng.random(), 3), "hold": rng.choice([0, 0.05, 0.3]),
                           "bad_handshake": rng.random() < 0.1, "hook_raises": rng.random() < 0.15,
@@ -154,7 +180,8 @@ class ConnWorld(World):
         ctx.probe(plan["servertype"])
         run = _Run.cur = {"resources": {}, "untracked": set(), "hooks": {}, "conn_objs": {}, "hook_raises": set(),
                           "sessions": 0, "sched": sched, "close_raises": plan["close_raises"], "hook_stamps": [],
-                          "creating_for": {}, "ctor_tracks": plan.get("ctor_tracks", False), "ctor_tracked": 0}
+                          "creating_for": {}, "ctor_tracks": plan.get("ctor_tracks", False), "ctor_tracked": 0,
+                          "ow_tracked": 0}
         gi = SV.Daemon._getInstance
 
         def get_instance(self, clazz, conn):
@@ -223,9 +250,11 @@ class ConnWorld(World):
                 if spec["hook_raises"]:
                     run["hook_raises"].add(sk.conn)
                 for t in spec["tracks"]:
-                    m = call(sk, st, "res", "track", (t["n"], t["untrack"]))
+                    m = call(sk, st, "res", "track", (t["n"], t["untrack"], sk.conn))
                     if m["type"] == N.MSG_RESULT and not m["flags"] & N.FLAG_EXC:
                         r["calls_ok"] += 1
+                for t in spec.get("ow_tracks", []):
+                    call(sk, st, "res", "track_ow", (t["n"], sk.conn, t["delay"]), flags=N.FLAG_ONEWAY)
                 for _ in range(spec.get("streams", 0)):
                     m = call(sk, st, "res", "items", (5,))
                     if m["type"] == N.MSG_RESULT and m["flags"] & N.FLAG_STREAM:
@@ -388,14 +417,23 @@ class ConnWorld(World):
                 ctx.violate("hook-count", "%s:%d" % ("open" if spec["end"] == "open" else "ended", hooks),
                             "connection %d ended by %s: disconnect hook called %d times" % (ci, spec["end"], hooks))
             # resources
+            own_end = min([st_ for (ci_, st_) in run["hook_stamps"] if ci_ == conn] or [None])
+            late = []
             for res in run["resources"].get(conn, []):
+                if res.oneway:
+                    ctx.probe("oneway_tracked_resource")
+                    if res.track_stamp is None or own_end is None or res.track_stamp > own_end:
+                        # tracked by a one-way thread that ran (or finished) after the connection had ended: nobody is left
+                        # to close it, nothing is demanded
+                        late.append(res)
+                        ctx.probe("oneway_tracked_after_end")
+                        continue
                 if (conn, res.idx) in run["untracked"]:
                     ctx.probe("resources_untracked")
                     if res.closed:
                         ctx.violate("untracked-resource-closed", "", "connection %d: resource %d was untracked but closed %d times" % (ci, res.idx, res.closed))
                 else:
                     ctx.probe("resources_closed")
-                    own_end = min([st_ for (ci_, st_) in run["hook_stamps"] if ci_ == conn] or [None])
                     if res.closed and own_end is not None and res.close_stamp is not None and res.close_stamp < own_end:
                         ctx.violate("resource-closed-early", "", "connection %d: tracked resource %d was closed (event %d) before this "
                                     "connection ended (event %d) - by the ending of another connection" % (ci, res.idx, res.close_stamp, own_end))
@@ -406,8 +444,9 @@ class ConnWorld(World):
             if co is not None:
                 if co.pyroInstances:
                     ctx.violate("session-instances-kept", "", "connection %d: pyroInstances not dropped: %r" % (ci, list(co.pyroInstances)))
-                if len(co.tracked_resources):
-                    ctx.violate("tracked-resources-kept", "", "connection %d: %d resources still tracked after the end" % (ci, len(co.tracked_resources)))
+                kept = [x for x in co.tracked_resources if not any(x is y for y in late)]
+                if kept:
+                    ctx.violate("tracked-resources-kept", "", "connection %d: %d resources still tracked after the end" % (ci, len(kept)))
             ssock = net.conns[conn][1]
             if not ssock.closed:
                 ctx.violate("server-socket-open", spec["end"], "connection %d ended by %s: server-side socket not closed" % (ci, spec["end"]))
